@@ -22,14 +22,33 @@ Definition anode (a : arith) : kind :=
 Lemma op_of_arith a : op_of (akind a) = Some (aprio a, anode a, false).
 Proof. destruct a; reflexivity. Qed.
 
+(* unit expressions as unit() reads them: segments separated by single blanks; a segment is a word or a number followed, without
+   blanks, by further words, numbers, * / ^ ** (and `to`, which unit() takes for a word) *)
+Definition useg := (tok * list tok)%type.
+Definition uast := (useg * list (list chr * useg))%type.
+Definition unode (t : tok) : Grammar.tree :=
+  Grammar.Node (match fst t with WORD | TO => WORD | NUMBER => NUMBER | STAR => OP_MUL | SLASH => OP_DIV | _ => OP_POWER end) [Tok (fst t) (snd t)].
+Definition toks_useg (s : useg) : list tok := fst s :: snd s.
+Definition toks_umore (m : list (list chr * useg)) : list tok :=
+  flat_map (fun ws : list chr * useg => (WHITESPACE, fst ws) :: toks_useg (snd ws)) m.
+Definition toks_uast (u : uast) : list tok := toks_useg (fst u) ++ toks_umore (snd u).
+Definition trees_umore (m : list (list chr * useg)) : list Grammar.tree :=
+  flat_map (fun ws : list chr * useg => Tok WHITESPACE (fst ws) :: map unode (toks_useg (snd ws))) m.
+Definition trees_uast (u : uast) : list Grammar.tree := map unode (toks_useg (fst u)) ++ trees_umore (snd u).
+Definition head_kind (k : kind) : Prop := k = WORD \/ k = NUMBER.
+Definition trail_kind (k : kind) : Prop := match k with WORD | TO | NUMBER | STAR | SLASH | CARET | STARSTAR => True | _ => False end.
+Definition wf_useg (s : useg) : Prop := head_kind (fst (fst s)) /\ Forall (fun t : tok => trail_kind (fst t)) (snd s).
+Definition wf_uast (u : uast) : Prop := wf_useg (fst u) /\ Forall (fun ws : list chr * useg => wf_useg (snd ws)) (snd u).
+
 (* expressions as token-level syntax: the text of every token is arbitrary (the parser does not look at it) *)
 Inductive operand := Num (text : list chr) | Pct (text : list chr) (w : blanks) (ptxt : list chr)
+  | NumU (text : list chr) (w : blanks) (u : uast)                  (* a number with a unit *)
   | Paren (po pc : list chr) (w1 : blanks) (e : expr) (w2 : blanks)
   | Call (name po pc : list chr) (a : args)                         (* f( ... ) *)
   | Fact (first : list chr) (ms : list (blanks * bool * list chr))   (* a word, or a phrase: further words and numbers *)
 with expr := Chain (x : operand) (r : tail)
 with tail := TNil | TCons (wb : blanks) (a : arith) (atxt : list chr) (wa : blanks) (x : operand) (r : tail)
-  | TTo (wb : blanks) (ttxt : list chr) (wa : blanks) (u : list chr) (r : tail)   (* `to` and a unit word *)
+  | TTo (wb : blanks) (ttxt : list chr) (wa : blanks) (u : uast) (r : tail)   (* `to` and a unit expression *)
 with args := ANone (w : blanks) | AOne (w1 : blanks) (e : expr) (m : more)
 with more := MEnd (wlast : blanks) | MComma (wc : blanks) (ctxt : list chr) (w1 : blanks) (e : expr) (m : more).
 Scheme operand_mut := Induction for operand Sort Prop
@@ -48,6 +67,7 @@ Fixpoint toks_operand (x : operand) : list tok :=
   match x with
   | Num t => [(NUMBER, t)]
   | Pct t w pt => (NUMBER, t) :: wst w ++ [(PERCENTAGE, pt)]
+  | NumU t w u => (NUMBER, t) :: wst w ++ toks_uast u
   | Paren po pc w1 e w2 => (OPEN_PAREN, po) :: wst w1 ++ toks_expr e ++ wst w2 ++ [(CLOSE_PAREN, pc)]
   | Call name po pc a => (WORD, name) :: (OPEN_PAREN, po) :: toks_args a ++ [(CLOSE_PAREN, pc)]
   | Fact first ms => (WORD, first) :: more_toks ms
@@ -57,7 +77,7 @@ with toks_tail (r : tail) : list tok :=
   match r with
   | TNil => []
   | TCons wb a txt wa x r' => wst wb ++ (akind a, txt) :: wst wa ++ toks_operand x ++ toks_tail r'
-  | TTo wb txt wa u r' => wst wb ++ (TO, txt) :: wst wa ++ [(WORD, u)] ++ toks_tail r'
+  | TTo wb txt wa u r' => wst wb ++ (TO, txt) :: wst wa ++ toks_uast u ++ toks_tail r'
   end
 with toks_args (a : args) : list tok :=
   match a with ANone w => wst w | AOne w1 e m => wst w1 ++ toks_expr e ++ toks_more m end
@@ -80,6 +100,7 @@ Fixpoint trees_operand (x : operand) : list Grammar.tree :=
   match x with
   | Num t => [Grammar.Node NUMBER [Tok NUMBER t]]
   | Pct t w pt => [Grammar.Node PERCENTAGE (Tok NUMBER t :: wsT w ++ [Tok PERCENTAGE pt])]
+  | NumU t w u => [Grammar.Node WITH_UNIT (Tok NUMBER t :: wsT w ++ [Grammar.Node UNIT (trees_uast u)])]
   | Paren po pc w1 e w2 => Tok OPEN_PAREN po :: trees_expr w1 e ++ wsT w2 ++ [Tok CLOSE_PAREN pc]
   | Call name po pc a =>
       [Grammar.Node FN_CALL (Grammar.Node FN_NAME [Grammar.Node WORD [Tok WORD name]] :: Tok OPEN_PAREN po ::
@@ -104,7 +125,7 @@ with tbody (r : tail) (m : nat) {struct r} : list Grammar.tree :=
   match r with
   | TNil => []
   | TCons _ _ _ _ x r' => match m with O => trees_operand x | S m' => tbody r' m' end
-  | TTo _ _ _ u r' => match m with O => [Grammar.Node UNIT [Grammar.Node WORD [Tok WORD u]]] | S m' => tbody r' m' end
+  | TTo _ _ _ u r' => match m with O => [Grammar.Node UNIT (trees_uast u)] | S m' => tbody r' m' end
   end
 with trees_more (m : more) {struct m} : list Grammar.tree :=
   match m with
@@ -113,7 +134,7 @@ with trees_more (m : more) {struct m} : list Grammar.tree :=
   end.
 
 Fixpoint need_operand (x : operand) : nat :=
-  match x with Num _ | Pct _ _ _ | Fact _ _ => 1 | Paren _ _ _ e _ => S (need_expr e) | Call _ _ _ a => S (S (need_args a)) end
+  match x with Num _ | Pct _ _ _ | NumU _ _ _ | Fact _ _ => 1 | Paren _ _ _ e _ => S (need_expr e) | Call _ _ _ a => S (S (need_args a)) end
 with need_expr (e : expr) : nat := match e with Chain x r => S (Nat.max (need_operand x) (need_tail r)) end
 with need_tail (r : tail) : nat :=
   match r with TNil => 0 | TCons _ _ _ _ x r' => Nat.max (need_operand x) (need_tail r') | TTo _ _ _ _ r' => need_tail r' end
@@ -147,7 +168,7 @@ Proof. induction w as [|t w IH]; [reflexivity|]. change (count_ws (wst (t :: w))
 Lemma kind_at_end w : kind_at (wst w) (length w) = EOF.
 Proof. unfold kind_at. rewrite <- (wst_length w). now rewrite (proj2 (nth_error_None _ _) (le_n _)). Qed.
 Lemma kind_at_operand x l : kind_at (toks_operand x ++ l) 0 = NUMBER \/ kind_at (toks_operand x ++ l) 0 = OPEN_PAREN \/ kind_at (toks_operand x ++ l) 0 = WORD.
-Proof. destruct x; [left|left|right; left|right; right|right; right]; reflexivity. Qed.
+Proof. destruct x; [left|left|left|right; left|right; right|right; right]; reflexivity. Qed.
 
 Definition next_kind (rest : list tok) : kind := kind_at rest (count_ws rest).
 Definition follows (rest : list tok) : Prop :=
@@ -226,31 +247,149 @@ Definition tight_ok (r : tail) : Prop :=
   | _ => True
   end.
 (* well-formed: a unit word is followed by a blank before * / ^ and `to` *)
-Fixpoint wf_operand (x : operand) : Prop := match x with Paren _ _ _ e _ => wf_expr e | Call _ _ _ a => wf_args a | _ => True end
-with wf_expr (e : expr) : Prop := match e with Chain x r => wf_operand x /\ wf_tail r end
+Definition ends_in_unit (x : operand) : bool := match x with NumU _ _ _ => true | _ => false end.
+Fixpoint wf_operand (x : operand) : Prop :=
+  match x with Paren _ _ _ e _ => wf_expr e | Call _ _ _ a => wf_args a | NumU _ _ u => wf_uast u | _ => True end
+with wf_expr (e : expr) : Prop := match e with Chain x r => wf_operand x /\ (ends_in_unit x = true -> tight_ok r) /\ wf_tail r end
 with wf_tail (r : tail) : Prop :=
   match r with
   | TNil => True
-  | TCons _ _ _ _ x r' => wf_operand x /\ wf_tail r'
-  | TTo _ _ _ _ r' => tight_ok r' /\ wf_tail r'
+  | TCons _ _ _ _ x r' => wf_operand x /\ (ends_in_unit x = true -> tight_ok r') /\ wf_tail r'
+  | TTo _ _ _ u r' => wf_uast u /\ tight_ok r' /\ wf_tail r'
   end
 with wf_args (a : args) : Prop := match a with ANone _ => True | AOne _ e m => wf_expr e /\ wf_more m end
 with wf_more (m : more) : Prop := match m with MEnd _ => True | MComma _ _ _ e m' => wf_expr e /\ wf_more m' end.
 
-Lemma unit_operand fuel w u rest : unit_follows rest ->
-  OperandAt (value fuel) true (length w) (wst w ++ (WORD, u) :: rest) (wsT w) [Grammar.Node UNIT [Grammar.Node WORD [Tok WORD u]]] rest.
+(* ---- unit(): the general run over a unit expression ---- *)
+Lemma bump_node_mk k (t : tok) B G : bump_node k (mkst (t :: B) G) = mkst B (G ++ [Grammar.Node k [Tok (fst t) (snd t)]]).
+Proof. reflexivity. Qed.
+
+Lemma unit_trail_run : forall tr fuel rest G, Forall (fun t : tok => trail_kind (fst t)) tr -> length tr < fuel -> ~ trail_kind (kind_at rest 0) ->
+  unit_trail fuel (mkst (tr ++ rest) G)
+  = ((if kind_beq (kind_at rest 0) WHITESPACE then Some 1 else None), mkst rest (G ++ map unode tr)).
 Proof.
-  intros Hu F. unfold operandf. rewrite bumps_mk, firstn_wst, skipn_wst. fold (wsT w).
-  unfold unit_. cbn [unit_loop]. rewrite nth_kind_mk. cbn [kind_at nth_error]. cbn [bumps].
-  change (bump_node WORD (mkst ((WORD, u) :: rest) ?G)) with (mkst rest (G ++ [Grammar.Node WORD [Tok WORD u]])).
-  change (checkpoint (mkst ((WORD, u) :: rest) ?G)) with (length G).
-  change (length (buf (mkst rest ?G))) with (length rest).
-  cbn [unit_trail]. rewrite nth_kind_mk. unfold unit_follows in Hu.
-  destruct (kind_at rest 0) eqn:K0; try contradiction.
-  1: { (* a blank follows *)
-    destruct Hu as [H1 H2]. cbn [length buf mkst]. cbn [unit_loop]. rewrite nth_kind_mk.
-    destruct (kind_at rest 1); try congruence; rewrite close_at_mk; rewrite app_length, <- app_assoc; reflexivity. }
-  all: rewrite close_at_mk; rewrite app_length, <- app_assoc; reflexivity.
+  induction tr as [|t tr IH]; intros fuel rest G Htr Hf Hr; (destruct fuel as [|fuel]; [cbn in Hf; lia|]); cbn [unit_trail app map].
+  - rewrite nth_kind_mk, app_nil_r. destruct (kind_at rest 0); cbn in Hr; try tauto; reflexivity.
+  - inversion Htr as [|t' tr' Ht Htr']. subst. rewrite nth_kind_mk. destruct t as [k tx]. cbn [kind_at nth_error fst] in *.
+    destruct k; cbn in Ht; try contradiction; rewrite bump_node_mk; rewrite (IH fuel rest _ Htr'); try (cbn in Hf; lia); try exact Hr;
+      unfold unode; cbn [fst snd]; rewrite <- app_assoc; reflexivity.
+Qed.
+
+Lemma umore_first_kind (mo : list (list chr * useg)) rest : unit_follows rest -> ~ trail_kind (kind_at (toks_umore mo ++ rest) 0).
+Proof.
+  intros Hu. destruct mo as [|[w sg] mo]; [|cbn; tauto]. cbn [toks_umore flat_map app]. unfold unit_follows in Hu.
+  destruct (kind_at rest 0); cbn; tauto.
+Qed.
+
+Lemma unit_loop_run : forall (mo : list (list chr * useg)) fuel ws seg c G rest,
+  wf_useg seg -> Forall (fun x : list chr * useg => wf_useg (snd x)) mo -> length mo < fuel -> unit_follows rest ->
+  unit_loop fuel (length ws) c (mkst (wst ws ++ toks_useg seg ++ toks_umore mo ++ rest) G)
+  = (Some (match c with Some c0 => c0 | None => length (G ++ wsT ws) end),
+     mkst rest (G ++ wsT ws ++ map unode (toks_useg seg) ++ trees_umore mo)).
+Proof.
+  induction mo as [|[w1 seg1] mo IH]; intros fuel ws seg c G rest [Hh Htr] Hm Hf Hu;
+    (destruct fuel as [|fuel]; [cbn in Hf; lia|]); destruct seg as [h tr]; cbn [fst snd] in Hh, Htr;
+    unfold toks_useg; cbn [fst snd]; cbn [unit_loop]; rewrite nth_kind_mk; rewrite <- app_comm_cons, kind_at_wst.
+  - (* the last segment *)
+    cbn [toks_umore trees_umore flat_map app]. rewrite app_nil_r.
+    assert (Hcase : forall k, fst h = k -> (k = WORD \/ k = NUMBER) ->
+      (let s1 := bumps (length ws) (mkst (wst ws ++ h :: tr ++ rest) G) in
+       let c' := match c with None => Some (checkpoint s1) | _ => c end in
+       let s2 := bump_node k s1 in
+       match unit_trail (S (length (buf s2))) s2 with
+       | (Some skip', s3) => unit_loop fuel skip' c' s3
+       | (None, s3) => (c', s3)
+       end) = (Some (match c with Some c0 => c0 | None => length (G ++ wsT ws) end), mkst rest (G ++ wsT ws ++ unode h :: map unode tr))).
+    { intros k Ek Hk. cbv zeta. rewrite bumps_mk, firstn_wst, skipn_wst. fold (wsT ws). rewrite bump_node_mk.
+      change (buf (mkst ?B ?X)) with B. change (checkpoint (mkst ?B ?X)) with (length X).
+      rewrite unit_trail_run; [|exact Htr|rewrite app_length; lia|unfold unit_follows in Hu; destruct (kind_at rest 0); cbn; tauto].
+      assert (Eh : Grammar.Node k [Tok (fst h) (snd h)] = unode h) by (unfold unode; rewrite Ek; destruct Hk as [-> | ->]; reflexivity).
+      rewrite Eh. unfold unit_follows in Hu.
+      assert (Hres : mkst rest (((G ++ wsT ws) ++ [unode h]) ++ map unode tr) = mkst rest (G ++ wsT ws ++ unode h :: map unode tr))
+        by (unfold mkst; f_equal; now rewrite <- !app_assoc).
+      destruct (kind_at rest 0) eqn:K0; cbn [kind_beq]; try contradiction; rewrite Hres; try (destruct c; reflexivity).
+      destruct Hu as [U1 U2]. destruct fuel as [|fuel']; [destruct c; reflexivity|]. cbn [unit_loop]. rewrite nth_kind_mk.
+      destruct (kind_at rest 1); try congruence; destruct c; reflexivity. }
+    destruct Hh as [E|E]; rewrite E; [exact (Hcase WORD E (or_introl eq_refl))|exact (Hcase NUMBER E (or_intror eq_refl))].
+  - (* a further segment follows after one blank *)
+    inversion Hm as [|x l Hseg1 Hm']. subst. cbn [snd] in Hseg1.
+    assert (Hcase : forall k, fst h = k -> (k = WORD \/ k = NUMBER) ->
+      (let s1 := bumps (length ws) (mkst (wst ws ++ h :: tr ++ toks_umore ((w1, seg1) :: mo) ++ rest) G) in
+       let c' := match c with None => Some (checkpoint s1) | _ => c end in
+       let s2 := bump_node k s1 in
+       match unit_trail (S (length (buf s2))) s2 with
+       | (Some skip', s3) => unit_loop fuel skip' c' s3
+       | (None, s3) => (c', s3)
+       end) = (Some (match c with Some c0 => c0 | None => length (G ++ wsT ws) end),
+               mkst rest (G ++ wsT ws ++ map unode (h :: tr) ++ trees_umore ((w1, seg1) :: mo)))).
+    { intros k Ek Hk. cbv zeta. rewrite bumps_mk, firstn_wst, skipn_wst. fold (wsT ws). rewrite bump_node_mk.
+      change (buf (mkst ?B ?X)) with B. change (checkpoint (mkst ?B ?X)) with (length X).
+      rewrite unit_trail_run; [|exact Htr|rewrite app_length; lia|cbn; tauto].
+      assert (Eh : Grammar.Node k [Tok (fst h) (snd h)] = unode h) by (unfold unode; rewrite Ek; destruct Hk as [-> | ->]; reflexivity).
+      rewrite Eh. cbn [toks_umore flat_map app kind_at nth_error fst kind_beq].
+      change (flat_map (fun ws0 : list chr * useg => (WHITESPACE, fst ws0) :: toks_useg (snd ws0)) mo) with (toks_umore mo).
+      cbn [fst snd]. rewrite <- app_assoc.
+      pose proof (IH fuel [w1] seg1 (match c with None => Some (length (G ++ wsT ws)) | _ => c end) (((G ++ wsT ws) ++ [unode h]) ++ map unode tr) rest Hseg1 Hm'
+                    ltac:(cbn in Hf; lia) Hu) as R.
+      cbn [length wst map app] in R. change ((WHITESPACE, w1) :: toks_useg seg1 ++ toks_umore mo ++ rest) with ([(WHITESPACE, w1)] ++ toks_useg seg1 ++ toks_umore mo ++ rest).
+      cbn [app]. cbn [app] in R.
+      match goal with |- context[unit_loop fuel 1 ?cc ?st] => match type of R with _ = ?rhs => replace (unit_loop fuel 1 cc st) with rhs by (symmetry; exact R) end end.
+      f_equal; [destruct c; reflexivity|]. unfold mkst. f_equal. cbn [trees_umore flat_map map fst snd]. unfold wsT. cbn [map wst toktree fst snd].
+      change (flat_map (fun ws0 : list chr * useg => Tok WHITESPACE (fst ws0) :: map unode (toks_useg (snd ws0))) mo) with (trees_umore mo).
+      rewrite <- !app_assoc. reflexivity. }
+    destruct Hh as [E|E]; rewrite E; [exact (Hcase WORD E (or_introl eq_refl))|exact (Hcase NUMBER E (or_intror eq_refl))].
+Qed.
+
+Lemma umore_length (mo : list (list chr * useg)) : length mo <= length (toks_umore mo).
+Proof.
+  induction mo as [|[w sg] mo IH]; [cbn; lia|].
+  change (toks_umore ((w, sg) :: mo)) with (((WHITESPACE, w) :: toks_useg sg) ++ toks_umore mo). rewrite app_length. cbn [length].
+  apply le_n_S. etransitivity; [exact IH|]. apply Nat.le_add_l.
+Qed.
+
+Lemma unit_call ws (u : uast) G rest : wf_uast u -> unit_follows rest ->
+  unit_ (length ws) (mkst (wst ws ++ toks_uast u ++ rest) G)
+  = (Some (length (G ++ wsT ws)), mkst rest (G ++ wsT ws ++ [Grammar.Node UNIT (trees_uast u)])).
+Proof.
+  intros [Hs Hm] Hu. destruct u as [seg mo]. unfold unit_, toks_uast. cbn [fst snd] in *. rewrite <- app_assoc.
+  rewrite (unit_loop_run mo _ ws seg None G rest Hs Hm); [|change (buf (mkst ?B ?X)) with B; rewrite !app_length; pose proof (umore_length mo); lia|exact Hu].
+  replace (G ++ wsT ws ++ map unode (toks_useg seg) ++ trees_umore mo) with ((G ++ wsT ws) ++ (map unode (toks_useg seg) ++ trees_umore mo))
+    by now rewrite <- !app_assoc.
+  rewrite close_at_mk. rewrite <- app_assoc. reflexivity.
+Qed.
+
+Lemma count_ws_uast (u : uast) l : wf_uast u -> count_ws (toks_uast u ++ l) = 0.
+Proof. intros [[Hh _] _]. destruct u as [[h tr] mo]. destruct h as [k tx]. cbn in *. destruct Hh as [-> | ->]; reflexivity. Qed.
+Lemma kind_at_uast (u : uast) l : wf_uast u -> head_kind (kind_at (toks_uast u ++ l) 0).
+Proof. intros [[Hh _] _]. destruct u as [[h tr] mo]. destruct h as [k tx]. cbn in *. exact Hh. Qed.
+
+Lemma unit_operand fuel w (u : uast) rest : wf_uast u -> unit_follows rest ->
+  OperandAt (value fuel) true (length w) (wst w ++ toks_uast u ++ rest) (wsT w) [Grammar.Node UNIT (trees_uast u)] rest.
+Proof.
+  intros Hw Hu F. unfold operandf. rewrite bumps_mk, firstn_wst, skipn_wst. fold (wsT w).
+  pose proof (unit_call [] u (F ++ wsT w) rest Hw Hu) as E. cbn [length wst wsT map app] in E. rewrite E.
+  rewrite !app_nil_r, app_length, <- app_assoc. reflexivity.
+Qed.
+
+Lemma numu_operand fuel w t wu (u : uast) rest : 1 <= fuel -> wf_uast u -> unit_follows rest ->
+  OperandAt (value fuel) false (length w) (wst w ++ ((NUMBER, t) :: wst wu ++ toks_uast u) ++ rest) (wsT w)
+    [Grammar.Node WITH_UNIT (Tok NUMBER t :: wsT wu ++ [Grammar.Node UNIT (trees_uast u)])] rest.
+Proof.
+  intros Hf Hw Hu F. destruct fuel as [|fuel]; [lia|]. unfold operandf. cbn [value]. unfold value_body.
+  rewrite <- app_comm_cons. rewrite nth_kind_mk, kind_at_wst. cbn [fst]. rewrite bumps_mk, firstn_wst, skipn_wst. fold (wsT w).
+  change (bump (mkst ((NUMBER, t) :: ?B) ?G)) with (mkst B (G ++ [Tok NUMBER t])).
+  change (count_skip (mkst ?B ?G)) with (count_ws B).
+  match goal with |- context[count_ws ?B] => replace B with (wst wu ++ toks_uast u ++ rest) by now rewrite <- app_assoc end.
+  rewrite count_ws_wst, (count_ws_uast u rest Hw), Nat.add_0_r. rewrite nth_kind_mk.
+  pose proof (kind_at_uast u rest Hw) as Hk.
+  assert (Ek : kind_at (wst wu ++ toks_uast u ++ rest) (length wu) = kind_at (toks_uast u ++ rest) 0).
+  { clear. induction wu as [|x wu IH]; [reflexivity|exact IH]. }
+  rewrite Ek. rewrite (unit_call wu u _ rest Hw Hu).
+  unfold checkpoint, mkst at 1. cbn [forest].
+  replace (((F ++ wsT w) ++ [Tok NUMBER t]) ++ wsT wu ++ [Grammar.Node UNIT (trees_uast u)])
+    with ((F ++ wsT w) ++ (Tok NUMBER t :: wsT wu ++ [Grammar.Node UNIT (trees_uast u)])) by now rewrite <- !app_assoc.
+  rewrite close_at_mk. rewrite <- app_assoc.
+  destruct Hk as [-> | ->]; unfold mkst; cbn [forest]; rewrite app_length; reflexivity.
 Qed.
 
 (* a word or a phrase: what follows must neither be a word or a number (they would join the phrase) nor, directly, an opening
@@ -311,7 +450,7 @@ Proof.
     rewrite close_at_mk. rewrite app_length, <- app_assoc. reflexivity.
 Qed.
 
-Definition operand_spec (fuel : nat) (x : operand) : Prop := forall w rest, follows rest ->
+Definition operand_spec (fuel : nat) (x : operand) : Prop := forall w rest, follows rest -> (ends_in_unit x = true -> unit_follows rest) ->
   OperandAt (value fuel) false (length w) (wst w ++ toks_operand x ++ rest) (wsT w) (trees_operand x) rest.
 Definition expr_spec (fuel : nat) (e : expr) : Prop := forall w rest F, follows rest -> unit_follows rest -> op_of (next_kind rest) = None ->
   operation fuel (length w) (mkst (wst w ++ toks_expr e ++ rest) F) = Some (Some (count_ws rest), mkst rest (F ++ trees_expr w e)).
@@ -323,7 +462,7 @@ Proof. unfold unit_follows. destruct w1 as [|x [|y w1]]; cbn; try exact I; split
 
 Lemma paren_operand fuel po pc w1 e w2 : expr_spec fuel e -> operand_spec (S fuel) (Paren po pc w1 e w2).
 Proof.
-  intros He w rest _ F. unfold operandf. cbn [value]. unfold value_body.
+  intros He w rest _ _ F. unfold operandf. cbn [value]. unfold value_body.
   cbn [toks_operand]. rewrite nth_kind_mk. rewrite <- app_comm_cons, kind_at_wst. cbn [fst].
   rewrite bumps_mk, firstn_wst, skipn_wst. fold (wsT w).
   change (bump (mkst ((OPEN_PAREN, po) :: ?B) ?G)) with (mkst B (G ++ [Tok OPEN_PAREN po])).
@@ -424,7 +563,7 @@ Qed.
 
 Lemma call_operand fuel name po pc a : args_ok fuel a -> operand_spec (S (S fuel)) (Call name po pc a).
 Proof.
-  intros Ha w rest _ F. unfold operandf. cbn [value]. unfold value_body.
+  intros Ha w rest _ _ F. unfold operandf. cbn [value]. unfold value_body.
   cbn [toks_operand]. rewrite <- !app_comm_cons. rewrite nth_kind_mk, kind_at_wst. cbn [fst].
   rewrite bumps_mk, firstn_wst, skipn_wst. fold (wsT w).
   change (bump_node WORD (mkst ((WORD, name) :: ?B) ?G)) with (mkst B (G ++ [Grammar.Node WORD [Tok WORD name]])).
@@ -482,20 +621,21 @@ Fixpoint all_operands (fuel : nat) (r : tail) : Prop :=
   | TTo _ _ _ _ r' => all_operands fuel r'
   end.
 
-Lemma chain_run fuel : forall r (u : bool) (cur_toks : list tok) (cur_trees : list Grammar.tree),
-  (forall w rest', follows rest' -> (u = true -> unit_follows rest') ->
+(* [u]: the current operand is read by unit(); [uf]: it ends in a unit, so what follows must let unit() stop *)
+Lemma chain_run fuel : forall r (u uf : bool) (cur_toks : list tok) (cur_trees : list Grammar.tree),
+  (forall w rest', follows rest' -> (uf = true -> unit_follows rest') ->
      OperandAt (value fuel) u (length w) (wst w ++ cur_toks ++ rest') (wsT w) cur_trees rest') ->
   (forall l, count_ws (cur_toks ++ l) = 0) ->
-  (u = true -> tight_ok r) -> wf_tail r -> all_operands fuel r ->
+  (uf = true -> tight_ok r) -> wf_tail r -> all_operands fuel r ->
   forall glue body i mid0 w rest,
     glue i = mid0 ++ wsT w -> body i = cur_trees ->
     (forall m, glue (S i + m) = tglue r m) -> (forall m, body (S i + m) = tbody r m) ->
     follows rest -> unit_follows rest -> op_of (next_kind rest) = None ->
     Run glue body (value fuel) i u (length w) (wst w ++ cur_toks ++ toks_tail r ++ rest) mid0 (prios r) (count_ws rest) rest.
 Proof.
-  induction r as [|wb a txt wa x' r' IH|wb txt wa un r' IH]; intros u cur_toks cur_trees Hcur Hcw Htight Hwf Hall glue body i mid0 w rest Hg Hb Hgl Hbd Hfo Huf Hst.
+  induction r as [|wb a txt wa x' r' IH|wb txt wa un r' IH]; intros u uf cur_toks cur_trees Hcur Hcw Htight Hwf Hall glue body i mid0 w rest Hg Hb Hgl Hbd Hfo Huf Hst.
   - cbn [toks_tail prios app]. eapply Run_end; [rewrite Hb; apply Hcur; [exact Hfo|intros _; exact Huf]|exact Hg|exact Hst].
-  - destruct Hall as [Hx' Hall]. destruct Hwf as [Hwx Hwf]. cbn [prios].
+  - destruct Hall as [Hx' Hall]. destruct Hwf as [Hwx [Htx Hwf]]. cbn [prios].
     set (b1 := toks_tail (TCons wb a txt wa x' r') ++ rest).
     assert (Hb1 : b1 = wst wb ++ (akind a, txt) :: wst wa ++ toks_operand x' ++ toks_tail r' ++ rest).
     { unfold b1. cbn [toks_tail]. now rewrite <- !app_assoc, <- app_comm_cons, <- !app_assoc. }
@@ -511,32 +651,30 @@ Proof.
       assert (Hc2 : count_ws (wst wa ++ toks_operand x' ++ toks_tail r' ++ rest) = length wa)
         by (rewrite count_ws_wst, count_ws_operand; lia).
       rewrite Hc2.
-      apply (IH false (toks_operand x') (trees_operand x')); try assumption.
-      * intros w' rest' Hf' _. apply Hx'. exact Hf'.
+      apply (IH false (ends_in_unit x') (toks_operand x') (trees_operand x')); try assumption.
       * intros l. apply count_ws_operand.
-      * discriminate.
       * specialize (Hgl 0). rewrite Nat.add_0_r in Hgl. rewrite Hgl. cbn [tglue toktree fst snd]. now rewrite <- !app_assoc.
       * specialize (Hbd 0). rewrite Nat.add_0_r in Hbd. rewrite Hbd. reflexivity.
       * intros m. specialize (Hgl (S m)). cbn [tglue] in Hgl. rewrite <- Hgl. f_equal. lia.
       * intros m. specialize (Hbd (S m)). cbn [tbody] in Hbd. rewrite <- Hbd. f_equal. lia.
-  - destruct Hwf as [Htr Hwf]. cbn [prios]. cbn [all_operands] in Hall.
+  - destruct Hwf as [Hwu [Htr Hwf]]. cbn [prios]. cbn [all_operands] in Hall.
     set (b1 := toks_tail (TTo wb txt wa un r') ++ rest).
-    assert (Hb1 : b1 = wst wb ++ (TO, txt) :: wst wa ++ [(WORD, un)] ++ toks_tail r' ++ rest).
+    assert (Hb1 : b1 = wst wb ++ (TO, txt) :: wst wa ++ toks_uast un ++ toks_tail r' ++ rest).
     { unfold b1. cbn [toks_tail]. now rewrite <- !app_assoc, <- app_comm_cons, <- !app_assoc. }
     assert (Hc1 : count_ws b1 = length wb) by (rewrite Hb1, count_ws_wst; cbn; lia).
-    eapply Run_op with (b1 := b1) (t := (TO, txt)) (pre := wsT w) (b2 := wst wa ++ [(WORD, un)] ++ toks_tail r' ++ rest).
+    eapply Run_op with (b1 := b1) (t := (TO, txt)) (pre := wsT w) (b2 := wst wa ++ toks_uast un ++ toks_tail r' ++ rest).
     + rewrite Hb. apply Hcur; [apply follows_tail; exact Hfo|intros Hu; apply unit_follows_tail; [apply Htight; exact Hu|exact Huf]].
     + exact Hg.
     + rewrite Hc1, Hb1. apply nth_error_wst.
     + reflexivity.
     + rewrite Hc1, Hb1. symmetry. apply skipn_S_wst.
     + rewrite Hc1. rewrite Hb1. rewrite firstn_wst. fold (wsT wb).
-      assert (Hc2 : count_ws (wst wa ++ [(WORD, un)] ++ toks_tail r' ++ rest) = length wa)
-        by (rewrite count_ws_wst; cbn; lia).
+      assert (Hc2 : count_ws (wst wa ++ toks_uast un ++ toks_tail r' ++ rest) = length wa)
+        by (rewrite count_ws_wst, (count_ws_uast un _ Hwu); lia).
       rewrite Hc2.
-      apply (IH true [(WORD, un)] [Grammar.Node UNIT [Grammar.Node WORD [Tok WORD un]]]); try assumption.
-      * intros w' rest' _ Hu'. apply unit_operand. apply Hu'. reflexivity.
-      * intros l. reflexivity.
+      apply (IH true true (toks_uast un) [Grammar.Node UNIT (trees_uast un)]); try assumption.
+      * intros w' rest' _ Hu'. apply unit_operand; [exact Hwu|apply Hu'; reflexivity].
+      * intros l. apply count_ws_uast. exact Hwu.
       * intros _. exact Htr.
       * specialize (Hgl 0). rewrite Nat.add_0_r in Hgl. rewrite Hgl. cbn [tglue toktree fst snd]. now rewrite <- !app_assoc.
       * specialize (Hbd 0). rewrite Nat.add_0_r in Hbd. rewrite Hbd. reflexivity.
@@ -547,15 +685,14 @@ Qed.
 Lemma prios_length r : length (prios r) <= length (toks_tail r).
 Proof. induction r as [|wb a txt wa x r IH|wb txt wa u r IH]; [cbn; lia| |]; cbn [prios toks_tail length]; repeat (rewrite app_length || cbn [length app]); lia. Qed.
 
-Lemma chain_expr fuel x r : operand_spec fuel x -> wf_tail r -> all_operands fuel r -> expr_spec (S fuel) (Chain x r).
+Lemma chain_expr fuel x r : operand_spec fuel x -> (ends_in_unit x = true -> tight_ok r) -> wf_tail r -> all_operands fuel r ->
+  expr_spec (S fuel) (Chain x r).
 Proof.
-  intros Hx Hwf Hall w rest F Hfo Huf Hst. cbn [operation toks_expr trees_expr].
+  intros Hx Htx Hwf Hall w rest F Hfo Huf Hst. cbn [operation toks_expr trees_expr].
   change (checkpoint (mkst ?B F)) with (length F). rewrite <- app_assoc.
   apply op_loop_climb.
-  - apply (chain_run fuel r false (toks_operand x) (trees_operand x)); try reflexivity; try assumption.
-    + intros w' rest' Hf' _. apply Hx. exact Hf'.
+  - apply (chain_run fuel r false (ends_in_unit x) (toks_operand x) (trees_operand x)); try reflexivity; try assumption.
     + intros l. apply count_ws_operand.
-    + discriminate.
   - change (buf (mkst ?B F)) with B. rewrite !app_length. pose proof (prios_length r). lia.
 Qed.
 
@@ -568,18 +705,19 @@ Lemma all_specs :
   (forall m, forall fuel, need_more m <= fuel -> wf_more m -> more_ok fuel m).
 Proof.
   apply syntax_mut.
-  - intros t fuel Hf _ w rest Hfo. cbn [toks_operand trees_operand app]. apply number_operand; [exact Hf|exact Hfo].
-  - intros t wp pt fuel Hf _ w rest _. cbn [toks_operand trees_operand]. apply percent_operand. exact Hf.
+  - intros t fuel Hf _ w rest Hfo _. cbn [toks_operand trees_operand app]. apply number_operand; [exact Hf|exact Hfo].
+  - intros t wp pt fuel Hf _ w rest _ _. cbn [toks_operand trees_operand]. apply percent_operand. exact Hf.
+  - intros t wu u fuel Hf Hw w rest _ Hu. cbn [toks_operand trees_operand]. apply numu_operand; [exact Hf|exact Hw|apply Hu; reflexivity].
   - intros po pc w1 e IHe w2 fuel Hf Hw. cbn [need_operand] in Hf. destruct fuel as [|fuel]; [lia|].
     apply paren_operand. apply IHe; [lia|exact Hw].
   - intros name po pc a IHa fuel Hf Hw. cbn [need_operand] in Hf. destruct fuel as [|[|fuel]]; [lia|lia|].
     apply call_operand. apply IHa; [lia|exact Hw].
-  - intros first ms fuel Hf _ w rest Hfo. cbn [toks_operand trees_operand]. apply fact_operand; [exact Hf|exact Hfo].
-  - intros x IHx r IHr fuel Hf [Hwx Hwr]. cbn [need_expr] in Hf. destruct fuel as [|fuel]; [lia|].
-    apply chain_expr; [apply IHx; [lia|exact Hwx]|exact Hwr|apply IHr; [lia|exact Hwr]].
+  - intros first ms fuel Hf _ w rest Hfo _. cbn [toks_operand trees_operand]. apply fact_operand; [exact Hf|exact Hfo].
+  - intros x IHx r IHr fuel Hf [Hwx [Htx Hwr]]. cbn [need_expr] in Hf. destruct fuel as [|fuel]; [lia|].
+    apply chain_expr; [apply IHx; [lia|exact Hwx]|exact Htx|exact Hwr|apply IHr; [lia|exact Hwr]].
   - intros fuel _ _. exact I.
-  - intros wb a txt wa x IHx r IHr fuel Hf [Hwx Hwr]. cbn [need_tail] in Hf. split; [apply IHx|apply IHr]; try assumption; lia.
-  - intros wb txt wa u r IHr fuel Hf [_ Hwr]. cbn [need_tail] in Hf. cbn [all_operands]. apply IHr; assumption.
+  - intros wb a txt wa x IHx r IHr fuel Hf [Hwx [_ Hwr]]. cbn [need_tail] in Hf. split; [apply IHx|apply IHr]; try assumption; lia.
+  - intros wb txt wa u r IHr fuel Hf [_ [_ Hwr]]. cbn [need_tail] in Hf. cbn [all_operands]. apply IHr; assumption.
   - intros w fuel _ _. exact I.
   - intros w1 e IHe m IHm fuel Hf [Hwe Hwm]. cbn [need_args] in Hf. split; [apply IHe|apply IHm]; try assumption; lia.
   - intros wl fuel _ _. exact I.
@@ -596,6 +734,7 @@ Proof.
   apply syntax_mut.
   - intros t. cbn. lia.
   - intros t wp pt. cbn. lia.
+  - intros t wu u. cbn. lia.
   - intros po pc w1 e IHe w2. cbn [need_operand toks_operand length]. rewrite !app_length. cbn [length]. lia.
   - intros name po pc a IHa. cbn [need_operand toks_operand length]. rewrite !app_length. cbn [length]. lia.
   - intros first ms. cbn. lia.
@@ -635,8 +774,8 @@ Proof.
   rewrite Hc. rewrite root_step. rewrite nth_kind_mk.
   assert (Hk : kind_at toks (length w0) = NUMBER \/ kind_at toks (length w0) = OPEN_PAREN \/ kind_at toks (length w0) = WORD).
   { unfold toks. destruct e as [x r]. cbn [toks_expr]. rewrite <- app_assoc.
-    destruct x as [t|t wp pt|po pc wa e' wb|name po pc a|first ms]; cbn [toks_operand]; rewrite <- ?app_comm_cons; rewrite kind_at_wst;
-      [left|left|right; left|right; right|right; right]; reflexivity. }
+    destruct x as [t|t wp pt|t wu u|po pc wa e' wb|name po pc a|first ms]; cbn [toks_operand]; rewrite <- ?app_comm_cons; rewrite kind_at_wst;
+      [left|left|left|right; left|right; right|right; right]; reflexivity. }
   assert (Hend : next_kind (wst w1) = EOF) by (unfold next_kind; rewrite count_ws_only; apply kind_at_end).
   assert (Hop : operation (2 * length (buf (mkst toks [])) + 2) (length w0) (mkst toks [])
                 = Some (Some (count_ws (wst w1)), mkst (wst w1) ([] ++ trees_expr w0 e))).
